@@ -967,3 +967,104 @@ Section RefinesMap.
              ++ apply in_app_or in N3. apply in_or_app. destruct N3 as [N3 | N3]; [left; exact N3 | right; right; exact N3].
   Qed.
 End RefinesMap.
+
+(** ---- 9. corollaries for histories that start with an empty cache ---- *)
+Section FromEmpty.
+  Variable hstate : Type.
+  Variable compute : hstate -> request -> bool -> fat * hstate * list bytes.
+  Variable cache_on : bool.
+  Variable ims_on : bool.
+  Variable parse_ims : bytes -> option Z.
+  Variable sanitize_ok : request -> bool.
+  Variable prime : request -> request.
+  Variable negotiate : request -> fat -> option (N * bytes).
+  Variable rules_of : bytes -> list rule.
+  Variable dbg : bool.
+
+  Lemma variants_sorted_from_empty ops hs now :
+    exists l st' now',
+      runV hstate compute cache_on ims_on parse_ims sanitize_ok prime negotiate rules_of dbg ([], hs) now ops = Ok l /\
+      runV_state hstate compute cache_on ims_on parse_ims sanitize_ok prime negotiate rules_of dbg ([], hs) now ops = Ok (st', now') /\
+      forall k e, pc_find k (fst st') = Some e ->
+        StronglySorted (fun p q => cmp_hcoll (snd p) (snd q) = Lt) (vr_resps (ve_var e)) /\
+        NoDup (map snd (vr_resps (ve_var e))) /\ vr_resps (ve_var e) <> [].
+  Proof.
+    destruct (runV_ok hstate compute cache_on ims_on parse_ims sanitize_ok prime negotiate rules_of dbg ops [] hs now
+                (InvV_nil hstate compute rules_of)) as (l & st' & now' & E1 & E2 & I & _).
+    exists l, st', now'. split; [exact E1|]. split; [exact E2|].
+    intros k e F. destruct (I k e F) as (S & Hne & _). split; [exact S|]. split; [apply vsorted_NoDup; exact S | exact Hne].
+  Qed.
+
+  Lemma computed_once_from_empty ops hs now :
+    always_stored hstate compute ->
+    Forall (op_ok ims_on sanitize_ok prime) ops -> Forall (gh_req prime) ops ->
+    exists l,
+      runV hstate compute true ims_on parse_ims sanitize_ok prime negotiate rules_of dbg ([], hs) now ops = Ok l /\
+      NoDup (map (cls rules_of) (calls_of l)) /\
+      (forall r0, In (OReq r0) ops -> In (cls rules_of (prime r0)) (map (cls rules_of) (calls_of l))).
+  Proof.
+    intros Hst Hops Hgh.
+    exists (spec_run hstate compute true ims_on prime negotiate rules_of [] hs ops).
+    split; [apply (run_refines hstate compute ims_on parse_ims sanitize_ok prime negotiate rules_of dbg Hst ops [] [] hs now);
+            [apply RelS_nil | exact Hops]|].
+    destruct (spec_once hstate compute ims_on prime negotiate rules_of ops [] hs Hgh) as (N1 & _ & N3).
+    split; [exact N1 | exact N3].
+  Qed.
+End FromEmpty.
+
+(** ---- 10. the code before the repair of [handle_vary_missing] (model [vary.run_v0]): a request
+    suspended at the await in [handle_vary_missing] while other requests complete.  Both histories were
+    first observed on the real code (harness park/release operations) and are in the regression corpus. ---- *)
+Definition stale_panic_history : xval :=
+  (XL [(XL [(XL [(XB [99;97;99;104;101]);(XN 1)]);(XL [(XB [104;97;110;100;108;101;114;115]);(XL [(XL [(XB [47;118]);(XN 3);(XN 200);(XB [84;48]);(XL []);(XN 2);(XN 0);(XN 0);(XN 1);(XL [(XL [(XB [120;45;97]);(XN 0);(XB [100;102;108;116])])])])])]);(XL [(XB [118;97;114;121]);(XL [(XL [(XB [47;118]);(XL [(XL [(XB [120;45;97]);(XN 0);(XB [100;102;108;116])])])])])]);(XL [(XB [114;101;112;111;114;116]);(XL [(XB [118;97;114;121])])])]);(XL [(XL [(XN 0);(XN 1);(XB [71;69;84]);(XB [47;118]);(XL [(XL [(XB [120;45;97]);(XB [98])])]);(XB [])]);(XL [(XN 0);(XN 1);(XB [71;69;84]);(XB [47;118]);(XL [(XL [(XB [120;45;97]);(XB [99])])]);(XB [])]);(XL [(XN 0);(XN 1);(XB [71;69;84]);(XB [47;118]);(XL [(XL [(XB [120;45;97]);(XB [100])])]);(XB [])]);(XL [(XN 5);(XN 1);(XB [71;69;84]);(XB [47;118]);(XL [(XL [(XB [120;45;97]);(XB [101])])]);(XB [])]);(XL [(XN 1);(XB [47;118])]);(XL [(XN 0);(XN 1);(XB [71;69;84]);(XB [47;118]);(XL [(XL [(XB [120;45;97]);(XB [97])])]);(XB [])]);(XL [(XN 6)]);(XL [(XN 4);(XB [47;118])])])]).
+
+Definition stale_panic_history_out_v0 : xval :=
+  (XL [(XN 2)]).
+
+Definition stale_panic_history_out : xval :=
+  (XL [(XL [(XN 200);(XL [(XL [(XB [118;97;114;121]);(XB [97;99;99;101;112;116;45;101;110;99;111;100;105;110;103;44;32;114;97;110;103;101;44;32;120;45;97])])]);(XB [84;48;124;98]);(XN 1);(XB [84;48;124;98]);(XL [(XB [104;48])])]);(XL [(XN 200);(XL [(XL [(XB [118;97;114;121]);(XB [97;99;99;101;112;116;45;101;110;99;111;100;105;110;103;44;32;114;97;110;103;101;44;32;120;45;97])])]);(XB [84;48;124;99]);(XN 1);(XB [84;48;124;99]);(XL [(XB [104;48])])]);(XL [(XN 200);(XL [(XL [(XB [118;97;114;121]);(XB [97;99;99;101;112;116;45;101;110;99;111;100;105;110;103;44;32;114;97;110;103;101;44;32;120;45;97])])]);(XB [84;48;124;100]);(XN 1);(XB [84;48;124;100]);(XL [(XB [104;48])])]);(XL []);(XL [(XN 1);(XN 1)]);(XL [(XN 200);(XL [(XL [(XB [118;97;114;121]);(XB [97;99;99;101;112;116;45;101;110;99;111;100;105;110;103;44;32;114;97;110;103;101;44;32;120;45;97])])]);(XB [84;48;124;97]);(XN 1);(XB [84;48;124;97]);(XL [(XB [104;48])])]);(XL [(XN 200);(XL [(XL [(XB [118;97;114;121]);(XB [97;99;99;101;112;116;45;101;110;99;111;100;105;110;103;44;32;114;97;110;103;101;44;32;120;45;97])])]);(XB [84;48;124;101]);(XN 1);(XB [84;48;124;101]);(XL [(XB [104;48])])]);(XL [(XL []);(XL [(XL [(XL [(XL [(XB [120;45;97]);(XB [97])])]);(XL [(XL [(XB [120;45;97]);(XB [101])])])])])])]).
+
+Definition stale_unsorted_history : xval :=
+  (XL [(XL [(XL [(XB [99;97;99;104;101]);(XN 1)]);(XL [(XB [104;97;110;100;108;101;114;115]);(XL [(XL [(XB [47;118]);(XN 3);(XN 200);(XB [84;48]);(XL []);(XN 2);(XN 0);(XN 0);(XN 1);(XL [(XL [(XB [120;45;97]);(XN 0);(XB [100;102;108;116])])])])])]);(XL [(XB [118;97;114;121]);(XL [(XL [(XB [47;118]);(XL [(XL [(XB [120;45;97]);(XN 0);(XB [100;102;108;116])])])])])]);(XL [(XB [114;101;112;111;114;116]);(XL [(XB [118;97;114;121])])])]);(XL [(XL [(XN 0);(XN 1);(XB [71;69;84]);(XB [47;118]);(XL [(XL [(XB [120;45;97]);(XB [97])])]);(XB [])]);(XL [(XN 5);(XN 1);(XB [71;69;84]);(XB [47;118]);(XL [(XL [(XB [120;45;97]);(XB [99])])]);(XB [])]);(XL [(XN 0);(XN 1);(XB [71;69;84]);(XB [47;118]);(XL [(XL [(XB [120;45;97]);(XB [98])])]);(XB [])]);(XL [(XN 6)]);(XL [(XN 4);(XB [47;118])]);(XL [(XN 0);(XN 1);(XB [71;69;84]);(XB [47;118]);(XL [(XL [(XB [120;45;97]);(XB [98])])]);(XB [])]);(XL [(XN 4);(XB [47;118])])])]).
+
+Definition stale_unsorted_history_out_v0 : xval :=
+  (XL [(XL [(XN 200);(XL [(XL [(XB [118;97;114;121]);(XB [97;99;99;101;112;116;45;101;110;99;111;100;105;110;103;44;32;114;97;110;103;101;44;32;120;45;97])])]);(XB [84;48;124;97]);(XN 1);(XB [84;48;124;97]);(XL [(XB [104;48])])]);(XL []);(XL [(XN 200);(XL [(XL [(XB [118;97;114;121]);(XB [97;99;99;101;112;116;45;101;110;99;111;100;105;110;103;44;32;114;97;110;103;101;44;32;120;45;97])])]);(XB [84;48;124;98]);(XN 1);(XB [84;48;124;98]);(XL [(XB [104;48])])]);(XL [(XN 200);(XL [(XL [(XB [118;97;114;121]);(XB [97;99;99;101;112;116;45;101;110;99;111;100;105;110;103;44;32;114;97;110;103;101;44;32;120;45;97])])]);(XB [84;48;124;99]);(XN 1);(XB [84;48;124;99]);(XL [(XB [104;48])])]);(XL [(XL []);(XL [(XL [(XL [(XL [(XB [120;45;97]);(XB [97])])]);(XL [(XL [(XB [120;45;97]);(XB [99])])]);(XL [(XL [(XB [120;45;97]);(XB [98])])])])])]);(XL [(XN 200);(XL [(XL [(XB [118;97;114;121]);(XB [97;99;99;101;112;116;45;101;110;99;111;100;105;110;103;44;32;114;97;110;103;101;44;32;120;45;97])])]);(XB [84;48;124;98]);(XN 1);(XB [84;48;124;98]);(XL [(XB [104;48])])]);(XL [(XL []);(XL [(XL [(XL [(XL [(XB [120;45;97]);(XB [97])])]);(XL [(XL [(XB [120;45;97]);(XB [98])])]);(XL [(XL [(XB [120;45;97]);(XB [99])])]);(XL [(XL [(XB [120;45;97]);(XB [98])])])])])])]).
+
+Definition stale_unsorted_history_out : xval :=
+  (XL [(XL [(XN 200);(XL [(XL [(XB [118;97;114;121]);(XB [97;99;99;101;112;116;45;101;110;99;111;100;105;110;103;44;32;114;97;110;103;101;44;32;120;45;97])])]);(XB [84;48;124;97]);(XN 1);(XB [84;48;124;97]);(XL [(XB [104;48])])]);(XL []);(XL [(XN 200);(XL [(XL [(XB [118;97;114;121]);(XB [97;99;99;101;112;116;45;101;110;99;111;100;105;110;103;44;32;114;97;110;103;101;44;32;120;45;97])])]);(XB [84;48;124;98]);(XN 1);(XB [84;48;124;98]);(XL [(XB [104;48])])]);(XL [(XN 200);(XL [(XL [(XB [118;97;114;121]);(XB [97;99;99;101;112;116;45;101;110;99;111;100;105;110;103;44;32;114;97;110;103;101;44;32;120;45;97])])]);(XB [84;48;124;99]);(XN 1);(XB [84;48;124;99]);(XL [(XB [104;48])])]);(XL [(XL []);(XL [(XL [(XL [(XL [(XB [120;45;97]);(XB [97])])]);(XL [(XL [(XB [120;45;97]);(XB [98])])]);(XL [(XL [(XB [120;45;97]);(XB [99])])])])])]);(XL [(XN 200);(XL [(XL [(XB [118;97;114;121]);(XB [97;99;99;101;112;116;45;101;110;99;111;100;105;110;103;44;32;114;97;110;103;101;44;32;120;45;97])])]);(XB [84;48;124;98]);(XN 1);(XB [84;48;124;98]);(XL [])]);(XL [(XL []);(XL [(XL [(XL [(XL [(XB [120;45;97]);(XB [97])])]);(XL [(XL [(XB [120;45;97]);(XB [98])])]);(XL [(XL [(XB [120;45;97]);(XB [99])])])])])])]).
+
+Lemma stale_position_panics_v0 :
+  run_vary_v0 stale_panic_history = XL [XN 2] /\ run_vary stale_panic_history = stale_panic_history_out.
+Proof. split; vm_compute; reflexivity. Qed.
+Lemma stale_position_unsorts_v0 :
+  run_vary_v0 stale_unsorted_history = stale_unsorted_history_out_v0 /\
+  run_vary stale_unsorted_history = stale_unsorted_history_out.
+Proof. split; vm_compute; reflexivity. Qed.
+
+(** ---- 11. statements in the form Properties/C05.v cites ---- *)
+Lemma insert_refines_map_lemma (L G : list (fat * hcoll)) f t t' :
+  vsorted (L ++ G) -> Forall (fun q => hlt (snd q) t) L -> Forall (fun q => hlt t (snd q)) G ->
+  vsorted (L ++ (f, t) :: G) /\
+  vfind t' (L ++ (f, t) :: G) = if hc_eqb t t' then Some f else vfind t' (L ++ G).
+Proof. intros S FL FG. split; [exact (insert_sorted L G f t S FL FG) | exact (vfind_insert L G f t t' FL)]. Qed.
+
+Lemma default_applied_lemma ref r :
+  (header_get (ru_name ref) r = None -> header_for ref r = (ru_name ref, ru_default ref)) /\
+  (forall v, header_get (ru_name ref) r = Some v -> to_str_ok v = false -> header_for ref r = (ru_name ref, ru_default ref)) /\
+  (forall v, header_get (ru_name ref) r = Some v -> to_str_ok v = true -> header_for ref r = (ru_name ref, ru_xf ref v)).
+Proof.
+  split; [exact (default_applied_absent ref r) | split].
+  - intros v. exact (default_applied_nontext ref r v).
+  - intros v. exact (transformed_when_text ref r v).
+Qed.
+
+Lemma vary_refines_map_from_empty hstate compute ims_on parse_ims sanitize_ok prime negotiate rules_of dbg ops hs now :
+  always_stored hstate compute ->
+  Forall (op_ok ims_on sanitize_ok prime) ops ->
+  runV hstate compute true ims_on parse_ims sanitize_ok prime negotiate rules_of dbg ([], hs) now ops
+  = Ok (spec_run hstate compute true ims_on prime negotiate rules_of [] hs ops).
+Proof.
+  intros Hst Hops.
+  exact (run_refines hstate compute ims_on parse_ims sanitize_ok prime negotiate rules_of dbg Hst ops [] [] hs now
+           (RelS_nil rules_of) Hops).
+Qed.
